@@ -43,8 +43,21 @@ def chainLines (c : Chain) : List String :=
 def parseRunKind (s : String) : RunKind :=
   if s == "sep" then .separate else if s == "ign" then .ignored else if s == "runign" then .ignoredRun else .normal
 
+/-- `<setup>/<body>/<teardown>` (or just `<body>`) -/
+def phases (outcome : String) : String × String × String :=
+  match outcome.splitOn "/" with
+  | [s, b, t] => (s, b, t)
+  | _ => ("pass", outcome, "pass")
+
+def setupPasses (outcome : String) : Bool := (phases outcome).1 == "pass"
+def allPass (outcome : String) : Bool :=
+  (phases outcome).1 == "pass" && (phases outcome).2.1 == "pass" && (phases outcome).2.2 == "pass"
+
+/-- the statements the test carries out: the body runs only after a setup that ended normally (`Utest::run`);
+    a failing / throwing setup or teardown is just another way for the test to fail -/
 def bodyOf (outcome : String) (sets : List (Loc × Val)) : List Stmt :=
-  setsOf sets ++ (if outcome == "pass" then [] else [Stmt.stop])
+  if !setupPasses outcome then [Stmt.stop]
+  else setsOf sets ++ (if allPass outcome then [] else [Stmt.stop])
 
 /-- `i:<id>:<name>` / `r:<name>` / `-` -/
 def parseMut (flags : List (Nat × Bool)) (ws : List String) : Mut :=
@@ -65,9 +78,11 @@ def parseScripted (flags : List (Nat × Bool)) (outcome : String) (sets : List (
   -- the body ends (FAIL, exception) only after its change of the chain
   match pm.splitOn ":" with
   | actor :: rest =>
-    { body := body, bodyMut := parseMut flags (bm.splitOn ":"), postActor := actor.toNat?.getD 0,
+    { body := body, bodyMut := if setupPasses outcome then parseMut flags (bm.splitOn ":") else .none,
+      postActor := actor.toNat?.getD 0,
       postMut := if pm == "-" then .none else parseMut flags rest }
-  | [] => { body := body, bodyMut := parseMut flags (bm.splitOn ":"), postActor := 0, postMut := .none }
+  | [] => { body := body, bodyMut := if setupPasses outcome then parseMut flags (bm.splitOn ":") else .none,
+            postActor := 0, postMut := .none }
 
 def notSet (c : Chain) : Chain := c.filter (·.kind != .setPointer)
 
@@ -258,6 +273,8 @@ def specBatch (sh : Shadow) (o : Proto.Op) : Except String Shadow := do
   return { sh with queue := [], now := mem }
 
 def specStep (sh : Shadow) (o : Proto.Op) : Except String Shadow := do
+  if o.obs.any (· == ["exception-escaped-the-runner"]) then
+    throw "an exception left the runner although re-throwing is off: the post actions of that test were skipped and the tests after it did not run"
   match o.op with
   | ["skip"] => return sh
   | ["install", id, name, kind] =>
@@ -308,7 +325,10 @@ def specStep (sh : Shadow) (o : Proto.Op) : Except String Shadow := do
     -- without an active plugin are never undone, the pointers keep what they hold now
     return { sh with pending := 0, baseline := sh.now }
   | ["set", _, _] => return { sh with script := sh.script + 1 }
-  | ["test", _, bm, pm] => return { sh with queue := sh.queue ++ [(sh.script, bm, pm)], script := 0 }
+  | ["test", outcome, bm, pm] =>
+    -- a test whose setup does not end normally has no body: no redirection, no change from the body
+    let ran := setupPasses outcome
+    return { sh with queue := sh.queue ++ [(if ran then sh.script else 0, if ran then bm else "-", pm)], script := 0 }
   | ["runall"] => specBatch sh o
   | ["run", outcome, kind] =>
     let some pre := obsLine "pre" o.obs | throw "no pre log"
@@ -330,12 +350,12 @@ def specStep (sh : Shadow) (o : Proto.Op) : Except String Shadow := do
     if dashList post != want.reverse then throw s!"post actions seen by {dashList post}, expected {want.reverse} (reverse of pre)"
     -- the limit
     let room := Gen.Plugins.maxSet - sh.pending
-    let nsets := sh.script
+    let nsets := if setupPasses outcome then sh.script else 0
     if nsets ≤ room then
       if done != nsets then throw s!"{done} of {nsets} redirections carried out although the table had room for {room}"
       if result == "overflow" then throw "table overflow reported below the limit"
       -- a failure reported by a pre action fails the test (and stops nothing, see `done` above)
-      if (result == "pass") != (outcome == "pass" && !sh.preFailure) then throw s!"test with outcome {outcome} reported as {result}"
+      if (result == "pass") != (allPass outcome && !sh.preFailure) then throw s!"test with outcome {outcome} reported as {result}"
     else
       if done != room then throw s!"{done} redirections carried out, the table had room for {room}"
       -- (the parent of a separate-process run cannot see why the child failed)
